@@ -34,6 +34,8 @@ def build(nq, seq):
             qc.barrier()
         elif kind == "MCX":
             qc.append(gates.MCX(len(ws) - 1), list(ws))
+        elif kind.startswith("MCtrl"):          # a generic multi-controlled gate: MCtrlZ, MCtrlX, MCtrlH, ...
+            qc.mctrl(getattr(gates, kind[5:])(), list(ws[:-1]), ws[-1])
         else:
             qc.append(getattr(gates, kind)(), list(ws))
     return qc
@@ -244,6 +246,133 @@ def job_step(a):
     return [res(name, PROVED, strength="proved-class", backend="z3", secs=time.time() - t0, havocked_states=n_ok)]
 
 
+def job_section_step(a):
+    """the SECTION loop of Decompiler.decompile from a state whose current run has ANY length: the run holds one real classical gate plus G >= 0
+    ghost gates (len() of that list object is modelled as 1 + G, G a mathematical integer: every path condition on the length is decided by z3).
+    STEP obligations for the next gate g:  classical -> nothing is closed and exactly g is appended;  barrier -> nothing changes;
+    any other gate -> exactly ONE section is reported, it is the run (same list, start index kept) and the state is reset (a later run is reported
+    on its own).  __exps_of_section is replaced by its contract (an opaque list)."""
+    import inspect
+    import z3
+    from qlasskit.decompiler import Decompiler
+    from qlasskit.decompiler import decompiler as dmod
+    from qlasskit.qcircuit import QCircuit, gates
+    from .. import pyvc
+    kind, = a
+    t0 = time.time()
+    fn = Decompiler.decompile
+    name = f"C11.decompile.section-loop-step[next gate {kind}; a run of every length >= 1]"
+    base = dict(strength="proved-class", backend="pyvc")
+    import ast
+    import textwrap
+    lines, start = inspect.getsourcelines(fn)
+    tree = ast.parse(textwrap.dedent("".join(lines)))
+    ast.increment_lineno(tree, start - 1)
+    fors = [n.lineno for n in ast.walk(tree) if isinstance(n, ast.For)]
+    if len(fors) != 1:
+        return [res(name, common.UNDECIDED, detail=f"decompile has {len(fors)} for loops: the contract names one", **base)]
+    mk = {"X": lambda: (gates.X(), [1], None), "CX": lambda: (gates.CX(), [0, 1], None), "CCX": lambda: (gates.CCX(), [0, 1, 2], None),
+          "MCX": lambda: (gates.MCX(3), [0, 1, 2, 3], None), "barrier": lambda: (gates.Barrier(), [], None), "H": lambda: (gates.H(), [0], None),
+          "sentinel": lambda: (None, [0], None)}
+    first = (gates.X(), [0], None)
+    nxt = mk[kind]()
+    tail = [(gates.X(), [2], None), (gates.H(), [1], None)]
+    qc = QCircuit(4)
+    for g, w, p in [first] + ([nxt] if kind != "sentinel" else []) + tail:
+        qc.append(g, w, p)
+    eng = pyvc.Engine(modular=True)
+    G = z3.Int("ghost_gates")
+    eng.base_hyps = [G >= 0]
+    eng.prune = True
+    state = {}
+    sentinel_exps = ["<exps of the section>"]
+    calls = []
+
+    def c_exps(vc, f, args, kwargs):
+        calls.append(args[-1])
+        return list(sentinel_exps)
+    eng.contracts[getattr(Decompiler, "_Decompiler__exps_of_section")] = c_exps
+
+    def m_len(vc, f, x):
+        if state.get("ghost_id") is not None and id(x) == state["ghost_id"]:
+            return pyvc.SymZ(z3.IntVal(len(x)) + G)
+        return len(x)
+    eng.models[len] = m_len
+
+    def ctl(vc, iterable, fl):
+        sec, results = fl["current_section"], fl["results"]
+        state.update(sec=sec, results=results)
+
+        def gen():
+            yield first
+            state["ghost_id"] = id(sec)          # from here on the run is 1 + G gates long
+            state["after_first"] = (list(sec), len(results.sections))
+            if kind != "sentinel":
+                yield nxt
+            else:
+                yield (None, [0], None)
+            state["after_next"] = (list(sec), [x for x in results.sections])
+            if kind in ("H", "sentinel"):
+                for t in tail:                    # a later run must be reported on its own
+                    yield t
+                state["after_tail"] = [x for x in results.sections]
+            raise pyvc.LoopCut(True)
+        return gen()
+    eng.loop_controllers[fors[0]] = ctl
+    try:
+        paths = eng.explore(lambda vc: (fn, [Decompiler(), qc], {}), max_paths=16)
+    except pyvc.Unsupported as ex:
+        return [res(name, common.UNDECIDED, detail=f"Unsupported: {ex}", **base)]
+    feas = [p for p in paths if p.kind != "infeasible"]
+    if len(feas) != 1 or feas[0].kind != "loopcut":
+        # a path that depends on the run's length: a witness length comes from the path condition
+        det = []
+        for p in feas:
+            st, model, _, _ = pyvc.solve([G >= 0] + list(getattr(p, "pc", [])), z3.BoolVal(False), 5000)
+            det.append(dict(kind=p.kind, value=str(p.value)[:120], run_length=(1 + model[G].as_long()) if (st == REFUTED and model is not None and model[G] is not None) else None))
+        wit = next((d["run_length"] for d in det if d["run_length"] and d["run_length"] > 1), None)
+        rp = dict(detail="the step depends on the LENGTH of the run", paths=det)
+        if wit:
+            rp.update(native_replay=_native_section_len(wit))
+        return [res(name, REFUTED, replayed=bool(wit and rp["native_replay"].get("violates")), replay=rp, **base)]
+    sec_first, nres_first = state["after_first"]
+    sec_next, res_next = state["after_next"]
+    bad = None
+    if len(sec_first) != 1 or nres_first != 0:
+        bad = "the first classical gate did not open a run of one gate"
+    elif kind in ("X", "CX", "CCX", "MCX"):
+        if res_next or len(sec_next) != 2 or sec_next[1][0] is not nxt[0]:
+            bad = f"a classical gate must extend the run and close nothing: run {len(sec_next)} real gates, {len(res_next)} section(s) reported"
+    elif kind == "barrier":
+        if res_next or len(sec_next) != 1:
+            bad = f"a barrier must change nothing: run {len(sec_next)} real gates, {len(res_next)} section(s) reported"
+    else:
+        if len(res_next) != 1 or res_next[0].gates is not state["sec"] or res_next[0].index[0] != 0 or res_next[0].expressions != sentinel_exps:
+            bad = f"a non-classical gate must report exactly the run: {len(res_next)} section(s), index {[x.index for x in res_next]}"
+        else:
+            at = state.get("after_tail", [])
+            if len(at) != 2 or len(at[1].gates) != 1 or at[1].gates[0][0] is not tail[0][0]:
+                bad = f"after a reported run the state is not reset: the later run X, H is reported as {[(len(x.gates), x.index) for x in at[1:]]}"
+    if bad:
+        return [res(name, REFUTED, replayed=False, replay=dict(detail=bad), **base)]
+    return [res(name, PROVED, secs=time.time() - t0, nontrivial=True, **base)]
+
+
+def _native_section_len(n):
+    """n classical gates then H on the REAL class: one section (0, n)"""
+    from qlasskit.decompiler import Decompiler
+    from qlasskit.qcircuit import QCircuit, gates
+    qc = QCircuit(2)
+    for i in range(n):
+        qc.append(gates.X(), [i % 2])
+    qc.append(gates.H(), [0])
+    try:
+        got = [tuple(x.index) for x in Decompiler().decompile(qc)]
+    except Exception as ex:  # noqa
+        return dict(call=f"Decompiler().decompile({n} X gates then H)", observed=f"raises {type(ex).__name__}: {ex}"[:200], violates=True)
+    return dict(call=f"Decompiler().decompile({n} X gates then H)", observed=got, expected=[(0, n)], violates=got != [(0, n)])
+
+
 def _dispatch(j):
     f, a = j
     return f(a)
@@ -272,6 +401,8 @@ def run(tier, only=None):
             if kind == "MCX" and nctl >= 3 and ws != tuple(sorted(ws)) and ws != tuple(sorted(ws, reverse=True)):
                 continue
             jobs.append((job_step, (kind, ws, nq)))
+    for kind in ("X", "CX", "CCX", "MCX", "barrier", "H", "sentinel"):
+        jobs.append((job_section_step, (kind,)))
     rs = run_pool(_dispatch, jobs)
     agg = {}
     for r in rs:
